@@ -212,41 +212,60 @@ def analyse(facts, tier):
         pass
     # clocks: enumerators nativeClockRate / nativeRate of the OPNFamilyTraits specialisations (folded through opn2_getNativeClockRate)
     traits = {n_: d for n_, d in facts.enum_names.items() if 'OPNFamilyTraits' in n_}
-    coefs = {}
-    sw = None
-    def rec(t):
-        nonlocal sw
-        if isinstance(t, dict):
-            if t.get('k') == 'SwitchStmt' and sw is None:
-                sw = t
-            for k2 in ('body', 'then', 'else', 'sub'):
-                v = t.get(k2)
-                if isinstance(v, list):
-                    for y in v:
-                        rec(y)
-                elif isinstance(v, dict):
-                    rec(v)
-    rec(on.tree)
-    if sw is None:
-        raise build.AnalysisBroken('C10.R3: chip family switch not found in OPN2::noteOn')
-    sel = strip(sw['cond'])
-    ok_sel = sel.get('k') == 'MemberExpr' and short(sel['n']) == 'm_chipFamily'
-    obls.append(Obl('C10.R3', on.name, 'coefficient selected by the live chip family', '%s:%s' % (on.file, sw.get('ln')), 'discharged' if ok_sel else 'finding',
-                    why='switch(m_chipFamily)' if ok_sel else 'the Hz -> F-number coefficient is selected by %s, not by the family of the running chips' % show(sel)))
-    cur = []
-    for it in (sw.get('body') or {}).get('body', []):
-        x = it
-        labs = []
-        while isinstance(x, dict) and x.get('k') in ('CaseStmt', 'DefaultStmt'):
-            labs.append(x.get('value') if x.get('k') == 'CaseStmt' else 'default')
-            x = x.get('sub')
-        if labs:
-            cur = labs
-        for y in walk(x):
+    # the Hz -> F-number coefficient: the floating local that receives floating constants in two or more places, each under a test of
+    # the chip family (switch labels or an if/else chain)
+    assigns = collections.defaultdict(list)
+    for b, j_, st in on.cfg.stmts():
+        for y in walk(st['s']):
             ap = assign_parts(y)
-            if ap and short(strip(ap[0]).get('n', '')) == 'coef' and 'fc' in ap[1]:
-                for l in cur:
-                    coefs[l] = ap[1]['fc']
+            if ap and ap[2] == '=' and strip(ap[0]).get('k') == 'DeclRefExpr' and 'fc' in strip(ap[1]):
+                assigns[strip(ap[0])['id']].append((strip(ap[1])['fc'], guard_facts(on, b, st), st['loc']))
+    cands = {k_: v for k_, v in assigns.items() if len(v) >= 2}
+    if len(cands) != 1:
+        raise build.AnalysisBroken('C10.R3: the per-family coefficient of OPN2::noteOn not found (%d candidate locals)' % len(cands))
+    coef_assigns = list(cands.values())[0]
+    def selector_facts(gf):
+        out_ = []
+        for f in gf:
+            if f[0] in ('case', 'case-default'):
+                out_.append((f[0], strip(f[1]), f[2] if f[0] == 'case' else None))
+            elif f[0] == 'cmp' and f[1] in ('==', '!=') and const_of(f[3]) is not None:
+                out_.append((f[1], strip(f[2]), const_of(f[3])))
+        return out_
+    sels = [x for fc_, gf, loc_ in coef_assigns for x in selector_facts(gf)]
+    if not sels:
+        raise build.AnalysisBroken('C10.R3: the coefficient of OPN2::noteOn is not selected by any test')
+    bad_sel = [show(e) for kind, e, v in sels if not (e.get('k') == 'MemberExpr' and short(e['n']) == 'm_chipFamily')]
+    ok_sel = not bad_sel
+    obls.append(Obl('C10.R3', on.name, 'coefficient selected by the live chip family', coef_assigns[0][2], 'discharged' if ok_sel else 'finding',
+                    why='every coefficient is chosen by a test of m_chipFamily' if ok_sel else 'the Hz -> F-number coefficient is selected by %s, not by the family of the running chips' % bad_sel[0]))
+    explicit = set()
+    for kind, e, v in sels:
+        if kind == 'case':
+            explicit |= set(v)
+        elif kind == '==':
+            explicit.add(v)
+    coefs = {}
+    for fval in set((facts.enum_names.get('OPNFamily') or {}).values()):
+        hit = []
+        for fc_, gf, loc_ in coef_assigns:
+            okf = True
+            for kind, e, v in selector_facts(gf):
+                if kind == 'case':
+                    okf = okf and fval in v
+                elif kind == 'case-default':
+                    okf = okf and True      # a label list that contains `default` also takes its explicit labels
+                elif kind == '==':
+                    okf = okf and fval == v
+                elif kind == '!=':
+                    okf = okf and fval != v
+            if okf:
+                hit.append((fc_, gf))
+        # an arm under `default` takes a value only when no other arm names it
+        named = [h for h in hit if not any(k_ == 'case-default' for k_, e, v in selector_facts(h[1]))]
+        pick = named or hit
+        if len({h[0] for h in pick}) == 1:
+            coefs[fval] = pick[0][0]
     name_of = {v: n_ for n_, v in fams.items()}
     if len(fams) < 2 or len(traits) < 2:
         raise build.AnalysisBroken('C10.R3: chip families (%d) / family traits (%d) not found' % (len(fams), len(traits)))
@@ -301,42 +320,114 @@ def analyse(facts, tier):
         o.rule = 'C10.R4'
         obls.append(o)
 
-    # ---- R5 packing
-    txt = []
-    steps = {}
-    for b, j, st in on.cfg.stmts():
-        for x in walk(st['s']):
-            ap = assign_parts(x)
-            if ap and short(strip(ap[0]).get('n', '')) == 'octave' and ap[2] == '+=':
-                steps['step'] = const_of(ap[1])
-    conds = [b.get('cond') for b in on.d['blocks'] if b.get('cond') is not None]
-    ceil = [const_of(strip(c)['r']) for c in conds if strip(c).get('k') == 'BinaryOperator' and strip(c)['op'] == '<' and short(strip(strip(c)['l']).get('n', '')) == 'octave']
-    thr = sorted(strip(c)['r'].get('fc') for c in conds if strip(c).get('k') == 'BinaryOperator' and strip(c)['op'] == '>=' and short(strip(strip(c)['l']).get('n', '')) == 'hertz' and 'fc' in strip(c)['r'])
-    ok = steps.get('step') == 0x800 and ceil == [0x3800]
-    obls.append(Obl('C10.R5', on.name, 'block step 1<<11, ceiling 7<<11', on.loc, 'discharged' if ok else 'finding', why='octave += 0x800 while octave < 0x3800' if ok else 'block step %s, ceiling %s' % (steps.get('step'), ceil)))
+    # ---- R5 packing (the locals are found by their role, not by their name: the floating value halved by the range loops, the
+    # integer block counter bounded by the first of them, and the local that combines the two)
+    def loops_of(t, acc):
+        if isinstance(t, dict):
+            if t.get('k') in ('WhileStmt', 'ForStmt', 'DoStmt') and t.get('cond') is not None:
+                acc.append(t)
+            for k2 in ('body', 'then', 'else', 'sub', 'init'):
+                v = t.get(k2)
+                if isinstance(v, (dict, list)):
+                    loops_of(v, acc)
+        elif isinstance(t, list):
+            for y in t:
+                loops_of(y, acc)
+        return acc
+    hz_thr = collections.defaultdict(list)      # floating local -> [(threshold, loop)]
+    for lp in loops_of(on.tree, []):
+        for f in literals(lp['cond'], True):
+            if f[0] == 'cmp' and f[1] == '>=' and strip(f[2]).get('k') == 'DeclRefExpr' and (strip(f[2]).get('t') or {}).get('f') and 'fc' in strip(f[3]):
+                hz_thr[strip(f[2])['id']].append((strip(f[3])['fc'], lp))
+    hz_id = max(hz_thr, key=lambda k_: len(hz_thr[k_])) if hz_thr else None
+    if hz_id is None or len(hz_thr[hz_id]) < 2:
+        raise build.AnalysisBroken('C10.R5: the two range loops of OPN2::noteOn (value >= threshold) not found')
+    thr = sorted(t_ for t_, lp in hz_thr[hz_id])
+    oct_id, ceil, step = None, [], None
+    for t_, lp in hz_thr[hz_id]:
+        for f in literals(lp['cond'], True):
+            nrm = cmp_norm(f) if f[0] == 'cmp' else None
+            if nrm and nrm[0] == '<' and strip(nrm[1]).get('k') == 'DeclRefExpr' and not (strip(nrm[1]).get('t') or {}).get('f'):
+                oct_id = strip(nrm[1])['id']
+                ceil.append(nrm[2])
+                for x in walk([lp.get('body'), lp.get('inc')]):
+                    ap = assign_parts(x)
+                    if ap and strip(ap[0]).get('id') == oct_id:
+                        r_ = strip(ap[1])
+                        if ap[2] == '+=':
+                            step = const_of(ap[1])
+                        elif ap[2] == '=' and r_.get('k') == 'BinaryOperator' and r_.get('op') == '+' and strip(r_['l']).get('id') == oct_id:
+                            step = const_of(r_['r'])
+                        elif ap[2] == '=' and r_.get('k') == 'BinaryOperator' and r_.get('op') == '+' and strip(r_['r']).get('id') == oct_id:
+                            step = const_of(r_['l'])
+    ok = step == 0x800 and ceil == [0x3800]
+    obls.append(Obl('C10.R5', on.name, 'block step 1<<11, ceiling 7<<11', on.loc, 'discharged' if ok else 'finding', why='block counter += 0x800 while it is < 0x3800' if ok else 'block step %s, ceiling %s' % (step, ceil)))
     ok = len(thr) == 2 and thr[0] + 0.5 < 2048 and thr[1] + 0.5 <= 2047.5 and thr[0] < thr[1]
     obls.append(Obl('C10.R5', on.name, 'halving thresholds fit an 11-bit F-number', on.loc, 'discharged' if ok else 'finding', why='thresholds %s (+0.5 rounding) stay below 2048' % thr if ok else 'thresholds %s can produce an F-number above 2047' % thr))
-    ft = None
+    def is_ref(e, vid):
+        return strip(e).get('k') == 'DeclRefExpr' and strip(e).get('id') == vid
+    def sides(e, op):
+        e = strip(e)
+        return (e['l'], e['r']) if e.get('k') == 'BinaryOperator' and e.get('op') == op else None
+    def either(pair, p1, p2):
+        return pair is not None and ((p1(pair[0]) and p2(pair[1])) or (p1(pair[1]) and p2(pair[0])))
+    def rounded_hz(e):
+        return either(sides(e, '+'), lambda a: is_ref(a, hz_id), lambda a: strip(a).get('fc') == 0.5)
+    ft_id, ft_txt, ft_ok = None, None, False
     for b, j, st in on.cfg.stmts():
+        cand_ = []
+        if st['s'].get('k') == 'DeclStmt':
+            cand_ += [(v['id'], v['init']) for v in st['s']['decls'] if v.get('init') is not None]
         for x in walk(st['s']):
             ap = assign_parts(x)
-            if ap and short(strip(ap[0]).get('n', '')) == 'ftone':
-                ft = show(strip(ap[1]))
-    ok = ft is not None and 'octave' in ft and '(hertz + 0.5)' in ft
-    obls.append(Obl('C10.R5', on.name, 'ftone = block bits + round(F-number)', on.loc, 'discharged' if ok else 'finding', why=ft or 'ftone not found'))
+            if ap and ap[2] == '=' and strip(ap[0]).get('k') == 'DeclRefExpr':
+                cand_.append((strip(ap[0])['id'], ap[1]))
+        for vid, e in cand_:
+            if oct_id is not None and mentions(e, lambda y: y.get('id') == oct_id) and mentions(e, lambda y: y.get('id') == hz_id) and vid not in (oct_id, hz_id):
+                ft_id, ft_txt = vid, show(strip(e))
+                ft_ok = either(sides(e, '+'), lambda a: is_ref(a, oct_id), rounded_hz)
+    obls.append(Obl('C10.R5', on.name, 'ftone = block bits + round(F-number)', on.loc, 'discharged' if ft_ok else 'finding', why=ft_txt or 'the local that combines block and F-number was not found'))
     writes = []
     for b, j, st in on.cfg.stmts():
         for x in calls_in(st['s']):
             if short(callee_name(x)) == 'writeRegI' and len(x['a']) >= 4:
-                writes.append((b, j, show(strip(x['a'][2])), show(strip(x['a'][3]))))
-    seq = [(r, v) for b, j, r, v in writes if r.startswith('(164') or r.startswith('(160') or r == '40']
-    ok = len(seq) == 3 and seq[0][0].startswith('(164') and seq[1][0].startswith('(160') and seq[2][0] == '40' and '((ftone >> 8) & 255)' in seq[0][1] and '(ftone & 255)' in seq[1][1] and '240' in seq[2][1] and 'g_noteChannelsMap' in seq[2][1]
-    obls.append(Obl('C10.R5', on.name, 'write order: 0xA4+ch high, 0xA0+ch low, 0x28 key-on', on.loc, 'discharged' if ok else 'finding', why=str(seq)))
+                writes.append((b, j, x['a'][2], x['a'][3]))
+    def addr_base(e):
+        c = const_of(e)
+        if c is not None:
+            return c
+        p_ = sides(e, '+')
+        if p_:
+            return const_of(p_[0]) if const_of(p_[0]) is not None else const_of(p_[1])
+        return None
+    def hi_byte(e):
+        return either(sides(e, '&'), lambda a: const_of(a) == 0xFF, lambda a: sides(a, '>>') is not None and is_ref(sides(a, '>>')[0], ft_id) and const_of(sides(a, '>>')[1]) == 8)
+    def lo_byte(e):
+        return either(sides(e, '&'), lambda a: const_of(a) == 0xFF, lambda a: is_ref(a, ft_id))
+    seq = [(addr_base(r), v) for b, j, r, v in writes if addr_base(r) in (0xA4, 0xA0, 0x28)]
+    ok = len(seq) == 3 and [a for a, v in seq] == [0xA4, 0xA0, 0x28] and hi_byte(seq[0][1]) and lo_byte(seq[1][1]) \
+        and mentions(seq[2][1], lambda y: const_of(y) == 0xF0) and mentions(seq[2][1], lambda y: y.get('k') == 'DeclRefExpr' and short(y.get('n', '')) == 'g_noteChannelsMap')
+    obls.append(Obl('C10.R5', on.name, 'write order: 0xA4+ch high, 0xA0+ch low, 0x28 key-on', on.loc, 'discharged' if ok else 'finding', why=str([('%#x' % a if a is not None else None, show(strip(v))) for a, v in seq])))
     g = facts.glob('g_noteChannelsMap')
     ok = g.get('init') == [0, 1, 2, 4, 5, 6]
     obls.append(Obl('C10.R5', on.name, 'key-on channel map', g['loc'], 'discharged' if ok else 'finding', why='g_noteChannelsMap = %s' % g.get('init')))
-    ch4 = any(st['s'].get('k') == 'DeclStmt' and any(v['n'] == 'ch4' and show(strip(v.get('init', {}))) == '(c % 6)' for v in st['s']['decls']) for b, j, st in on.cfg.stmts())
-    obls.append(Obl('C10.R5', on.name, 'channel within chip = c % 6', on.loc, 'discharged' if ch4 else 'finding', why='ch4 = c % 6' if ch4 else 'channel index within the chip is not c % 6'))
+    # the channel within the chip: the subscript of the key-on channel map is (a local holding) parameter c % 6
+    p0 = on.params[0]['id'] if on.params else None
+    def is_c_mod_6(e, depth=0):
+        e = strip(e)
+        pr = sides(e, '%')
+        if pr and is_ref(pr[0], p0) and const_of(pr[1]) == 6:
+            return True
+        if e.get('k') == 'DeclRefExpr' and depth < 2:
+            for b, j, st in on.cfg.stmts():
+                if st['s'].get('k') == 'DeclStmt':
+                    for v in st['s']['decls']:
+                        if v['id'] == e.get('id') and v.get('init') is not None:
+                            return is_c_mod_6(v['init'], depth + 1)
+        return False
+    subs = [y for a, v in seq[2:3] for y in walk(v) if y.get('k') == 'ArraySubscriptExpr' and mentions(y.get('b'), lambda z: short(z.get('n', '')) == 'g_noteChannelsMap')]
+    ch4 = bool(subs) and all(is_c_mod_6(y.get('i')) for y in subs)
+    obls.append(Obl('C10.R5', on.name, 'channel within chip = c % 6', on.loc, 'discharged' if ch4 else 'finding', why='key-on map indexed by c % 6' if ch4 else 'channel index within the chip is not c % 6'))
     obls += r6_glide(facts)
     obls += r7_sostenuto(facts)
     obls += r8_no_narrowing(facts)
